@@ -205,11 +205,11 @@ theorem eval_error_stops (env : Env) (n : Nat) (w w1 : World) (p q : Query) (r :
     (extra : Extra) (input : Option Val) (uc : Bool) (e : EState)
     (hmiss : (extra.isEmpty && input.isNone && uc) = false ∨ w.get (q.encode Gen.escapeTable) = none)
     (hp : q.predecessor = some (p, r)) (hpe : p.segments.isEmpty = false)
-    (h : evalQ env n (w.storeMeta raw (s "evaluating parent")) p (p.encode Gen.escapeTable) .none input uc = (w1, .st e))
+    (h : evalQ env n (w.metaIf uc raw (s "evaluating parent")) p (p.encode Gen.escapeTable) .none input uc = (w1, .st e))
     (he : e.isError = true) :
     evalQ env (n+1) w q raw extra input uc =
-      (w1.storeMeta raw (s "error"), .st { e with data := .none, query := q.encode Gen.escapeTable }) ∧
-    (w1.storeMeta raw (s "error")).calls = w1.calls :=
+      (w1.metaIf uc raw (s "error"), .st { e with data := .none, query := q.encode Gen.escapeTable }) ∧
+    (w1.metaIf uc raw (s "error")).calls = w1.calls :=
   Liquer.eval_error_stops env n w w1 p q r raw extra input uc e hmiss hp hpe h he
 
 -- non-vacuity: `one/boom/add-2` — `boom` (second step, position 4) raises; the reference interpretation and the
